@@ -79,9 +79,9 @@ Print Assumptions C09_alias_free_results_stable.
    tree 1 is untouched. *)
 Example own_history_example :
   let h := [Alloc 0 ex_ast; Alloc 0 ex_select; Alloc 0 ex_ident;
-            Write 0 1 (mkNode ex_select 5%N [(ex_select_slot, 2)]); Write 0 0 (mkNode ex_ast 0%N [(ex_ast_slot, 1)]);
-            Alloc 1 ex_ast; Observe 1 3; Release 0 0; Get 2 2; Write 2 2 (mkNode ex_ident 9%N [])] in
+            Write 0 1%N (mkNode ex_select 5%N [(ex_select_slot, 2%N)]); Write 0 0%N (mkNode ex_ast 0%N [(ex_ast_slot, 1%N)]);
+            Alloc 1 ex_ast; Observe 1 3%N; Release 0 0%N; Get 2 2%N; Write 2 2%N (mkNode ex_ident 9%N [])] in
   own_wf init h = true /\
-  seteqb (pool (own_run init h)) [0; 1] = true /\
-  own (own_run init h) 2 = Live 2 /\ own (own_run init h) 3 = Live 1.
+  seteqb (pool (own_run init h)) [0%N; 1%N] = true /\
+  own (own_run init h) 2%N = Live 2 /\ own (own_run init h) 3%N = Live 1.
 Proof. vm_compute. repeat split. Qed.
